@@ -1,5 +1,5 @@
 import ClaripyProofs.Lemmas.AST.FoldSound
-import ClaripyProofs.Lemmas.AST.RulesSound2
+import ClaripyProofs.Lemmas.AST.RulesSound3
 import ClaripyProofs.Lemmas.AST.ACNormSoundB
 import ClaripyProofs.Lemmas.AST.BitsSound
 import ClaripyProofs.Lemmas.AST.CmpSound
